@@ -504,8 +504,9 @@ def ao1(ctx, R):
             continue
         if val[0] == "self" and ("self." + val[1]) in env:
             val = env["self." + val[1]]
-        if val[0] == "loop" or any(m[0] == "loop" for m, k in lookups(val)):
-            name = val[1] if val[0] == "loop" else [m for m, k in lookups(val) if m[0] == "loop"][0][1]
+        if val[0] in ("loop", "filled") or any(m[0] in ("loop", "filled") for m, k in lookups(val)):
+            bad = val if val[0] in ("loop", "filled") else [m for m, k in lookups(val) if m[0] in ("loop", "filled")][0]
+            name = bad[1] if bad[0] == "loop" else show(bad[1])[:60]
             R.violation(key, rf.where(c), "the %s properties come from `%s`, a map that is still being filled inside the same loop over the file's "
                         "objects: a %s object that appears after the channel (later in the segment or in a later segment) is not seen, so its "
                         "scaling properties are ignored" % (role, name, role))
